@@ -64,6 +64,20 @@ fn macro_forms(rng: &mut Rng, who: &str) -> Vec<(String, String)> {
                 out.push(("macro-redef".into(), format!("(define-syntax let (syntax-rules () ((let x) '{})))", tag)));
                 out.push(("macro-use".into(), "(let 5)".to_string()));
             }
+            6 if rng.chance(1, 3) => {
+                // many failed uses of derived forms, some inside other derived forms: whatever
+                // a failure leaves behind must not add up to something the neighbours feel
+                for _ in 0..rng.range(20, 70) {
+                    let t = *rng.pick(&[
+                        "(let)",
+                        "(when)",
+                        "(let ((p 1)) (cond ((= p 1) (let ((q 2)) (if))) (else 0)))",
+                        "(cond ((let ((a 1)) (when))))",
+                        "(let* ((a 1) (b (let))) b)",
+                    ]);
+                    out.push(("macro-use-failing".into(), t.to_string()));
+                }
+            }
             6 => out.push(("macro-use".into(), "(cond (#f 1) (else 2))".to_string())),
             7 => out.push(("macro-use".into(), "(let ((x 1) (y 2)) (+ x y))".to_string())),
             _ => out.push(("macro-use".into(), "(when #t (unless #f 'both))".to_string())),
